@@ -62,6 +62,12 @@ func (cc *callCache) Delete(index int) {
 	}
 }
 
+func (cc *callCache) Len() int {
+	cc.Lock()
+	defer cc.Unlock()
+	return len(cc.c)
+}
+
 func (cc *callCache) Take() (calls []call) {
 	cc.Lock()
 	defer cc.Unlock()
@@ -204,13 +210,30 @@ func (c *Caller) send(id string, responder chan []call) bool {
 	return false
 }
 
+func (c *Caller) hasCalls(id string) bool {
+	if calls, ok := c.calls.Get(id); ok {
+		return calls.(*callCache).Len() > 0
+	}
+	return false
+}
+
 func (c *Caller) response(id string) {
-	if responder, ok := c.responders.Pop(id); ok {
-		responder := responder.(chan []call)
-		if !c.send(id, responder) {
-			if !c.responders.SetIfAbsent(id, responder) {
-				responder <- nil
-			}
+	for {
+		r, ok := c.responders.Pop(id)
+		if !ok {
+			return
+		}
+		responder := r.(chan []call)
+		if c.send(id, responder) {
+			return
+		}
+		if !c.responders.SetIfAbsent(id, responder) {
+			responder <- nil
+			return
+		}
+		// a call queued while the responder was out of the map has not found it
+		if !c.hasCalls(id) {
+			return
 		}
 	}
 }
@@ -260,6 +283,10 @@ func (c *Caller) begin(ctx context.Context) []call {
 			}
 			return newValue
 		})
+		// a call queued between the check above and the registration has not found the responder
+		if c.hasCalls(id) {
+			c.response(id)
+		}
 		if c.IdleTimeout > 0 {
 			ctx, cancel := context.WithTimeout(ctx, c.IdleTimeout)
 			defer cancel()
